@@ -1,25 +1,58 @@
 #!/usr/bin/env python3
-"""Prints markdown tables for DESIGN.md section 9 from the evidence files, Props files and seeded/ metadata."""
-import json, os, re, glob
+"""Markdown tables for DESIGN.md section 9 from the evidence files, Props files and seeded/ metadata.
+usage: tools/mkreport.py            print the tables
+       tools/mkreport.py --update   rewrite the text between the TABLE_9_2 / TABLE_9_4 markers of DESIGN.md"""
+import json, os, re, glob, sys
 HERE = os.path.dirname(os.path.dirname(os.path.abspath(__file__)))
-print('| Property | theorems (Props) | _partial | _refuted | obligations (quick) | correspondence cases (quick) | non-trivial | translator tie | known findings replayed | wall s |')
-print('|---|---|---|---|---|---|---|---|---|---|')
-for f in sorted(glob.glob(os.path.join(HERE, 'coq/theories/Props/C*.v'))):
-    pid = os.path.basename(f)[:-2]
-    txt = open(f).read()
-    th = re.findall(r'^\s*Theorem\s+(\w+)', txt, flags=re.M)
-    ev = os.path.join(HERE, 'evidence', pid + '.json')
-    if os.path.exists(ev):
-        e = json.load(open(ev)); c = e['coverage']
-        tr = c.get('translator') or {}
-        ntr = sum(1 for v in tr.values() if v == 'translated')
-        print(f"| {pid} | {len(th)} | {sum(1 for t in th if 'partial' in t)} | {sum(1 for t in th if 'refuted' in t)} | {c['discharged']}/{c['obligations']} | "
-              f"{c['evaluations']} | {c['distinct_nontrivial']} | {str(ntr) + ' functions' if tr else '-'} | {len(c.get('known_findings_reproduced', []))} | {e['wall_s']} |")
+
+
+def table_92():
+    out = ['| Property | theorems (Props) | _partial | _refuted | obligations (quick) | correspondence cases (quick) | non-trivial | translator tie | known findings replayed | wall s |',
+           '|---|---|---|---|---|---|---|---|---|---|']
+    for f in sorted(glob.glob(os.path.join(HERE, 'coq/theories/Props/C*.v'))):
+        pid = os.path.basename(f)[:-2]
+        if not re.fullmatch(r'C\d\d', pid):
+            continue
+        txt = open(f).read()
+        extra = os.path.join(HERE, 'coq/theories/Props', pid + 'b.v')
+        if os.path.exists(extra):
+            txt += open(extra).read()
+        th = re.findall(r'^\s*Theorem\s+(\w+)', txt, flags=re.M)
+        ev = os.path.join(HERE, 'evidence', pid + '.json')
+        if os.path.exists(ev):
+            e = json.load(open(ev)); c = e['coverage']
+            tr = c.get('translator') or {}
+            ntr = sum(1 for v in tr.values() if v == 'translated')
+            out.append(f"| {pid} | {len(th)} | {sum(1 for t in th if 'partial' in t)} | {sum(1 for t in th if 'refuted' in t)} | {c['discharged']}/{c['obligations']} | "
+                       f"{c['evaluations']} | {c['distinct_nontrivial']} | {str(ntr) + ' definitions' if tr else '-'} | {len(c.get('known_findings_reproduced', []))} | {e['wall_s']} |")
+        else:
+            out.append(f'| {pid} | {len(th)} | | | (no evidence yet) | | | | | |')
+    return '\n'.join(out)
+
+
+def table_94():
+    out = ['| Seeded change | property | what it does | needs | result |', '|---|---|---|---|---|']
+    for d in sorted(glob.glob(os.path.join(HERE, 'seeded', '*'))):
+        m = json.load(open(os.path.join(d, 'meta.json')))
+        res = m.get('result', '')
+        if len(m.get('results', {})) > 1:
+            res = '; '.join(f"{k}: {'CAUGHT' if v.get('caught') else 'missed'}" for k, v in m['results'].items())
+        out.append(f"| {os.path.basename(d)} | {m['property']} | {m.get('summary','')[:220].replace('|','/')} | {m.get('needs','')[:180].replace('|','/')} | {res} |")
+    return '\n'.join(out)
+
+
+def main():
+    if '--update' in sys.argv:
+        p = os.path.join(HERE, 'DESIGN.md')
+        s = open(p).read()
+        for tag, fn in (('TABLE_9_2', table_92), ('TABLE_9_4', table_94)):
+            b, e = f'<!-- {tag}_BEGIN -->', f'<!-- {tag}_END -->'
+            if b in s and e in s:
+                s = s[:s.index(b) + len(b)] + '\n' + fn() + '\n' + s[s.index(e):]
+        open(p, 'w').write(s)
     else:
-        print(f'| {pid} | {len(th)} | | | (no evidence yet) | | | | | |')
-print()
-print('| Seeded change | property | what it does | needs | result |')
-print('|---|---|---|---|---|')
-for d in sorted(glob.glob(os.path.join(HERE, 'seeded', '*'))):
-    m = json.load(open(os.path.join(d, 'meta.json')))
-    print(f"| {os.path.basename(d)} | {m['property']} | {m.get('summary','')[:160].replace('|','/')} | {m.get('needs','')[:140].replace('|','/')} | {m.get('result','')} |")
+        print(table_92()); print(); print(table_94())
+
+
+if __name__ == '__main__':
+    main()
